@@ -24,13 +24,13 @@ TABLE = {
     'C06': ('model checking + trace validation of lane facts',
             'Bit-counting functions: operational byte forms model-checked against set-of-bits definitions for all 8/16-bit values; recorded lane and scalar-overload results judged by TLC.', '7 C06'),
     'C07': ('model checking + trace validation of lane facts',
-            'blend/keep/clear/set_bits, min/max/minmax/clamp, abs/neg_abs/negate, average, midpoint: model-checked against statements on unbounded integers at 8/16 bits; recorded lane and scalar results judged by TLC.', '7 C07'),
+            'blend/keep/clear/set_bits, min/max/minmax/clamp, abs/neg_abs/negate, average, midpoint: model-checked against statements on unbounded integers at 8/16 bits; recorded lane and scalar results judged by TLC; blend/keep/clear/negate fed by computed masks in the composed machine (Avel.tla: TraceAvel.tla trace validation, Gen_Avel.tla behaviours replayed on the code).', '7 C07 and Part II II.1'),
     'C03': ('model checking + trace validation (facts and register programs)',
-            'Mask.tla: masks as arrays of booleans; MC_Mask checks the Boolean-algebra laws and that the k-register implementation model refines the abstract array for all 2^N x 2^N register pairs, N <= 8. Conformance: every mask operation on immediate operands with ALL observers of the result recorded (extract<I>, count/any/all/none, Vector(mask), set_bits, ==), exhaustive for N <= 8, structured + random above; plus register programs (4 live masks, results feed later operations) validated by TraceMask.tla, which computes operands from its own state.', '7 C03'),
+            'Mask.tla: masks as arrays of booleans; MC_Mask checks the Boolean-algebra laws and that the k-register implementation model refines the abstract array for all 2^N x 2^N register pairs, N <= 8. Conformance: every mask operation on immediate operands with ALL observers of the result recorded (extract<I>, count/any/all/none, Vector(mask), set_bits, ==), exhaustive for N <= 8, structured + random above; plus register programs (4 live masks, results feed later operations) validated by TraceMask.tla, which computes operands from its own state; plus the composed machine Avel.tla in both directions: register programs over live vectors, masks, memory and rounding mode validated by TraceAvel.tla, and TLC-simulated behaviours (Gen_Avel.tla) replayed on the real types; plus the complete state graph of Gen_Mask.tla replayed per transition.', '7 C03 and Part II II.1'),
     'C08': ('model checking + trace validation of memory events',
-            'Mem.tla: load/store/gather/scatter/extract/insert on byte images; MC_Mem checks C08 on a bounded three-page memory. Conformance: every n in 0..width+2 (and 2^31, 2^32-1), every compile-time N, every lane index, four placements, aligned and unaligned forms; window contents before/after recorded and judged by TLC.', '7 C08'),
+            'Mem.tla: load/store/gather/scatter/extract/insert on byte images; MC_Mem checks C08 on a bounded three-page memory. Conformance: every n in 0..width+2 (and 2^31, 2^32-1), every compile-time N, every lane index, four placements, aligned and unaligned forms; window contents before/after recorded and judged by TLC; partial loads and stores into one live arena as actions of the composed machine Avel.tla (TraceAvel.tla, Gen_Avel.tla).', '7 C08 and Part II II.1'),
     'C09': ('model checking + trace validation of memory events',
-            'Same machine with ghost read/write footprints and page protection; access strategies exact / fault-suppressed mask / full-window RMW are model-checked (the last violates C09: vacuity guard). Conformance: transfers issued flush against PROT_NONE pages at either end, n = 0 with the pointer inside an inaccessible page, inactive gather/scatter lanes pointing into inaccessible memory, sentinel bytes around every store target; signals and window contents recorded and judged by TLC.', '7 C09'),
+            'Same machine with ghost read/write footprints and page protection; access strategies exact / fault-suppressed mask / full-window RMW are model-checked (the last violates C09: vacuity guard). Conformance: transfers issued flush against PROT_NONE pages at either end, n = 0 with the pointer inside an inaccessible page, inactive gather/scatter lanes pointing into inaccessible memory, sentinel bytes around every store target, hardware data watchpoints (perf_event breakpoints) on the bytes adjacent to the addressed elements during every call (reads and writes, every configuration incl. AVX-512), memcheck below AVX-512; signals, watchpoint triggers and window contents recorded and judged by TLC.', '7 C09 and Part II II.4'),
     'C10': ('trace validation with correct rounding accepted by postcondition',
             'FP.tla: RoundsTo(mode, C, r) decides correct rounding through exact bignum comparisons (sum, product, quotient a/b via cmp(a, d*b), sqrt via cmp(a, d*d)); FP.tla itself is validated against an independent exact-rational oracle on labelled correct/corrupted facts (MC_FPSelf). Conformance: special-value/binade/halfway lattice squared x 4 rounding modes x float/double x every width, + random patterns, all forms; each lane result judged by TLC.', '7 C10'),
     'C11': ('trace validation by postcondition + environment facts',
